@@ -6,6 +6,7 @@
 //! 2 infrastructure problem / inconclusive.
 
 mod driver;
+mod e1;
 mod formats;
 mod host;
 mod mach;
@@ -118,6 +119,9 @@ fn real_main() -> i32 {
     driver::install_panic_hook();
     let mk = |name: &'static str| Run::new(name, seed, tier);
     dispatch!(id.as_str(), mk, &replay,
+        "C01" => c01,
+        "C02" => c02,
+        "C03" => c03,
         "C06" => c06,
         "C17" => c17,
         "C20" => c20,
